@@ -548,7 +548,7 @@ impl Scenario for VaultScn {
                 if w.native_balance(&h.vault, &denom.to_uppercase()) == 0 && denom.to_uppercase() != *denom {
                     v.push(VAct::SendLookalike { amount: 10_001 });
                 }
-                for k in ["underfunded", "lookalike_denom", "two_coins"] {
+                for k in ["underfunded", "nothing_attached", "lookalike_denom", "two_coins"] {
                     v.push(VAct::BadDeposit { user: MALLORY.to_string(), kind: k.to_string() });
                 }
             } else {
@@ -740,6 +740,7 @@ impl Scenario for VaultScn {
                     let upper = denom.to_uppercase();
                     let funds = match kind.as_str() {
                         "underfunded" => vec![coin(1, denom)],
+                        "nothing_attached" => vec![],
                         "lookalike_denom" => vec![coin(declared, &upper)],
                         _ => {
                             let mut f = vec![coin(declared, denom), coin(1, &upper)];
